@@ -276,7 +276,20 @@ pub(crate) fn solve_expression(
                                         Value::Int(0)
                                     }
                                 }
-                                Value::Float(x) => Value::Int(x.round() as i64),
+                                Value::Float(x) => {
+                                    // NOTE: `as` saturates and turns NaN into 0, a float that is not
+                                    // within the range of an i64 cannot be cast.
+                                    let x = x.round();
+                                    if x >= i64::MIN as f64 && x < i64::MAX as f64 {
+                                        Value::Int(x as i64)
+                                    } else {
+                                        debug!(
+                                            "evaluating false, could not cast left hand side for {} - {}",
+                                            expression, x
+                                        );
+                                        return SolverResult::False;
+                                    }
+                                }
                                 Value::Int(x) => Value::Int(x),
                                 Value::String(x) => match x.parse::<i64>() {
                                     Ok(i) => Value::Int(i),
@@ -419,7 +432,20 @@ pub(crate) fn solve_expression(
                                         Value::Int(0)
                                     }
                                 }
-                                Value::Float(x) => Value::Int(x.round() as i64),
+                                Value::Float(x) => {
+                                    // NOTE: `as` saturates and turns NaN into 0, a float that is not
+                                    // within the range of an i64 cannot be cast.
+                                    let x = x.round();
+                                    if x >= i64::MIN as f64 && x < i64::MAX as f64 {
+                                        Value::Int(x as i64)
+                                    } else {
+                                        debug!(
+                                            "evaluating false, could not cast right hand side for {} - {}",
+                                            expression, x
+                                        );
+                                        return SolverResult::False;
+                                    }
+                                }
                                 Value::Int(x) => Value::Int(x),
                                 Value::String(x) => match x.parse::<i64>() {
                                     Ok(i) => Value::Int(i),
